@@ -37,12 +37,12 @@ def build(clauses, variant, greedy, prios):
             body = (("yield", "Y%d" % (i + 1)),)
         elif variant == "empty1" and i == 0:
             body = ()
-        elif variant == "mixbody" and i % 2 == 1:
+        elif variant in ("mixbody", "mixelse") and i % 2 == 1:
             body = (("match", L("x")), ("finish", code))
         else:
             body = (("finish", code),)
         cl.append((pr, tuple(pats), body))
-    if variant == "else":
+    if variant in ("else", "mixelse"):
         cl.append((None, ("else",), (("finish", "C0"),)))
     elif variant == "elsex":
         cl.append((None, ("else",), (("match", L("x")), ("finish", "C0"))))
@@ -77,7 +77,7 @@ def check_item(item):
             cores.append(U.m_core(p))
             owner.append(i)
             prio_of.append((prios[i] if (greedy and prios) else 0))
-    has_else = variant in ("else", "elsex", "elsepat")
+    has_else = variant in ("else", "elsex", "elsepat", "mixelse")
     else_owner = len(clauses) - 1 if variant == "elsepat" else None
     reps = U.reps_of(stmts)
     dfas = [D.Dfa(r, reps) for r in cores]
@@ -92,7 +92,7 @@ def check_item(item):
         return ("finish", "C%d" % (i + 1))
 
     def xbody(i):
-        return variant == "mixbody" and i % 2 == 1
+        return variant in ("mixbody", "mixelse") and i % 2 == 1
 
     def alive(Q, c):
         return [j for j in range(len(Q)) if Q[j] is not None and not dfas[j].dead(D.deriv(Q[j], c))]
@@ -204,7 +204,7 @@ def check_item(item):
                                 verdict = ("fail",)
                     else:
                         # no clause pattern equals the consumed bytes: else at the offending byte, or no-match
-                        if has_else and variant == "else":
+                        if has_else and variant in ("else", "mixelse"):
                             exp_pre.append(("finish", "C0"))
                             terminal = ("finish", "C0")
                         elif has_else and variant == "elsepat":
@@ -302,10 +302,10 @@ def items_for(tier, seed):
     allsets = sets + three + four + multi
     for s in allsets:
         n = len(s)
-        for variant in ("plain", "else", "elsex", "empty1", "elsepat", "mixbody"):
+        for variant in ("plain", "else", "elsex", "empty1", "elsepat", "mixbody", "mixelse"):
             items.append((s, variant, False, None))
         for pr in (None, tuple(range(1, n + 1)), tuple(reversed(range(1, n + 1)))):
-            for variant in ("plain", "else", "lexer", "mixbody"):
+            for variant in ("plain", "else", "lexer", "mixbody", "mixelse"):
                 items.append((s, variant, True, pr))
     return [(a, b, c, d, (i % (9 if tier == "quick" else 6)) == seed % (9 if tier == "quick" else 6)) for i, (a, b, c, d) in enumerate(items)]
 
